@@ -452,6 +452,19 @@ fn dump_body<'tcx>(tcx: TyCtxt<'tcx>, did: DefId, out: &mut String) {
 	out.push_str("]}\n");
 }
 
+struct UnsafeFinder<'tcx> {
+	tcx: TyCtxt<'tcx>,
+	found: Vec<Span>,
+}
+impl<'tcx> rustc_hir::intravisit::Visitor<'tcx> for UnsafeFinder<'tcx> {
+	fn visit_block(&mut self, b: &'tcx rustc_hir::Block<'tcx>) {
+		if let rustc_hir::BlockCheckMode::UnsafeBlock(rustc_hir::UnsafeSource::UserProvided) = b.rules {
+			self.found.push(b.span);
+		}
+		rustc_hir::intravisit::walk_block(self, b);
+	}
+}
+
 fn is_ws_crate(name: &str) -> bool {
 	name == "grin" || name.starts_with("grin_")
 }
@@ -754,6 +767,25 @@ impl Cb {
 					}
 				}
 				_ => {}
+			}
+		}
+		// user-written unsafe blocks (trusted-base inventory)
+		for owner in tcx.hir_body_owners() {
+			if let Some(body) = tcx.hir_maybe_body_owned_by(owner) {
+				let mut f = UnsafeFinder { tcx, found: Vec::new() };
+				rustc_hir::intravisit::Visitor::visit_body(&mut f, body);
+				let _ = f.tcx;
+				for sp in f.found {
+					if sp.from_expansion() {
+						continue;
+					}
+					let _ = write!(
+						out,
+						"{{\"t\":\"unsafe\",\"fn\":{},\"span\":{}}}\n",
+						esc(&path_of(tcx, owner.to_def_id())),
+						span_json(tcx, sp)
+					);
+				}
 			}
 		}
 		// trait impls
